@@ -533,8 +533,11 @@ def run(ctx):
 
     # ---- R7 item accounting reads the polymorphic collection ---------------------
     r7 = ctx.rule('R7', 'item accounting uses task_ex.executions, not a '
-                  'type-specific collection', 'WMW')
+                  'type-specific collection; accepted tracks completion',
+                  'WMW+GD')
     child_collections(ctx, r7)
+    from mstatic.rules import shared
+    shared.accepted_tracks_completion(ctx, r7)
 
     # ---- R6 duplicate completion (shared with C06.R6) ---------------------------
     r6 = ctx.rule('R6', 'capacity is not returned twice for one item',
